@@ -465,6 +465,8 @@ type replayFile struct {
 	Property string             `json:"property,omitempty"`
 	Pkg     string              `json:"pkg,omitempty"`
 	Site    string              `json:"site,omitempty"`
+	Preempt int                 `json:"delay_bound"`
+	Unwind  int                 `json:"unwind,omitempty"`
 }
 
 func workDir() string {
@@ -578,7 +580,7 @@ func confirmFindings(ld *loaded, ov map[string]string, ps *PropSpec, hr *Harness
 	var files []string
 	for k, f := range ex.Findings {
 		cf := &ConfirmedFinding{F: f}
-		rf := replayFile{Harness: f.Harness, Tier: tier, Inputs: f.Inputs, Nondet: f.Nondet, Path: f.Path, Threads: f.Threads, Property: ps.ID, Pkg: hr.Spec.Pkg, Site: f.Site,
+		rf := replayFile{Harness: f.Harness, Tier: tier, Inputs: f.Inputs, Nondet: f.Nondet, Path: f.Path, Threads: f.Threads, Property: ps.ID, Pkg: hr.Spec.Pkg, Site: f.Site, Preempt: cfg.Preempt, Unwind: cfg.Unwind,
 			Expect: map[string]string{"kind": f.Kind, "label": f.Label, "case": f.Case, "msg": f.Msg}}
 		name := fmt.Sprintf("%s-%d.json", hr.Spec.Fn, k)
 		cf.Replay = filepath.Join(dir, name)
@@ -718,6 +720,7 @@ func validateSamples(ld *loaded, ov map[string]string, ps *PropSpec, hr *Harness
 func cmdReplay(args []string) int {
 	fs := flag.NewFlagSet("replay", flag.ExitOnError)
 	file := fs.String("file", "", "replay file")
+	forceNative := fs.Bool("native", false, "replay natively even for a multi-threaded harness (development aid: the schedule is the Go scheduler's)")
 	fs.Parse(args)
 	b, err := os.ReadFile(*file)
 	if err != nil {
@@ -731,7 +734,7 @@ func cmdReplay(args []string) int {
 	}
 	fnName := rf.Harness[strings.LastIndexByte(rf.Harness, '.')+1:]
 	ov := overlayFiles(nil)
-	if rf.Threads <= 1 {
+	if rf.Threads <= 1 || *forceNative {
 		bin, err := buildNative(ov, rf.Pkg, []string{fnName})
 		if err != nil {
 			fmt.Println(err)
@@ -757,6 +760,10 @@ func cmdReplay(args []string) int {
 	}
 	fn := ld.pkgs[modPath+"/"+rf.Pkg].Func(fnName)
 	cfg := interp.DefaultConfig()
+	cfg.Preempt = rf.Preempt
+	if rf.Unwind > 0 {
+		cfg.Unwind = rf.Unwind
+	}
 	out, detail := interp.ConcreteRun(ld.prog, fn, ld.sizes, cfg, rf.Tier, rf.Inputs, rf.Nondet)
 	fmt.Printf("SSA-level concrete replay: outcome=%q %s\n", out, detail)
 	if out == "" {
